@@ -8,9 +8,16 @@ def run(ctx):
     # 1. design level: the reference model satisfies the property on its ghost state
     ctx.mc("MC_Reassembler")
     # 2. spec -> impl: all operation sequences of length Depth over the unit alphabet
-    cfg = ctx.make_cfg("Gen_Reassembler.cfg", "Gen_Reassembler_run.cfg", {"Depth": 3 if q else 4})
+    #    (depth 4 is 10.5 million sequences, 6.8 GB of text: more than the replay can hold - depth 3 is exhaustive, depths 4
+    #    and 6 are sampled in the thorough tier)
+    cfg = ctx.make_cfg("Gen_Reassembler.cfg", "Gen_Reassembler_run.cfg", {"Depth": 3})
     beh, _ = ctx.gen("Gen_Reassembler", "gen_reasm.txt", cfg=cfg)
     ctx.replay_stage("Reassembler", ctx.harness(hb, ["reasm-replay", beh, ctx.tier]), beh)
+    if not q:
+        for depth, num in ((4, 300000), (6, 200000)):
+            cfg = ctx.make_cfg("Gen_Reassembler.cfg", "Gen_Reassembler_run%d.cfg" % depth, {"Depth": depth})
+            beh, _ = ctx.gen("Gen_Reassembler", "gen_reasm_%d.txt" % depth, cfg=cfg, simulate=(num, depth + 1))
+            ctx.replay_stage("Reassembler (sampled, depth %d)" % depth, ctx.harness(hb, ["reasm-replay", beh, ctx.tier]), beh)
 
     cfg = ctx.make_cfg("Gen_RangeSet.cfg", "Gen_RangeSet_run.cfg", {"Depth": 3, "MaxV": 5 if q else 6})
     beh, _ = ctx.gen("Gen_RangeSet", "gen_rangeset.txt", cfg=cfg)
